@@ -22,6 +22,7 @@ import (
 
 type valAbsOpts struct {
 	NilIsEmpty bool // nil slice/map == empty slice/map
+	ByValue    bool // big decimals compared by numeric value (1.50 == 1.5)
 }
 
 func absValue(v interface{}) string { return absValueO(v, valAbsOpts{}) }
@@ -78,11 +79,11 @@ func absRV(sb *strings.Builder, v reflect.Value, seen map[uintptr]int, o valAbsO
 			if x == nil {
 				sb.WriteString("nil")
 			} else {
-				sb.WriteString("apd(" + bigDFloatKey(x) + ")")
+				sb.WriteString("apd(" + apdText(x, o) + ")")
 			}
 			return
 		case apd.Decimal:
-			sb.WriteString("apd(" + bigDFloatKey(&x) + ")")
+			sb.WriteString("apd(" + apdText(&x, o) + ")")
 			return
 		case compact_float.DFloat:
 			sb.WriteString("dfloat(" + dfloatKey(x) + ")")
@@ -185,4 +186,11 @@ func absRV(sb *strings.Builder, v reflect.Value, seen map[uintptr]int, o valAbsO
 	default:
 		fmt.Fprintf(sb, "<%s>", v.Kind())
 	}
+}
+
+func apdText(x *apd.Decimal, o valAbsOpts) string {
+	if o.ByValue {
+		return normNumber(floatEv("OnBigDecimalFloat", bigDFloatKey(x), ""))
+	}
+	return bigDFloatKey(x)
 }
